@@ -41,6 +41,43 @@ def run(chk):
                    detail="%s can return without having called %s" % (sn, base.replace("asmjit::", "")), key="callsbase|" + sn)
     chk.floor(R2 + ":overrides", nov, 18)
 
+    # ---------------------------------------------------------------- C16.d address independence of the code-generation pipeline
+    R3 = "R-NO-POINTER-ORDER"
+    chk.rule(R3, "in the code-generation units (CodeHolder, emitters, Builder/Compiler, register allocator, stack/argument helpers, formatter) "
+                 "no relational comparison (< > <= >=) has object pointers on both sides - only byte cursors of one buffer are compared: what is "
+                 "generated never depends on where the arena happened to place a node (a recycled and a fresh holder generate the same code)")
+    UNITS = ["asmjit/core/codeholder.cpp", "asmjit/core/builder.cpp", "asmjit/core/compiler.cpp", "asmjit/core/rapass.cpp", "asmjit/core/ralocal.cpp",
+             "asmjit/core/rastack.cpp", "asmjit/core/constpool.cpp", "asmjit/core/emitter.cpp", "asmjit/core/assembler.cpp",
+             "asmjit/core/funcargscontext.cpp", "asmjit/core/emithelper.cpp", "asmjit/core/func.cpp", "asmjit/core/formatter.cpp",
+             "asmjit/x86/x86rapass.cpp", "asmjit/arm/a64rapass.cpp"]
+    BYTE = ("uint8_t *", "const uint8_t *", "char *", "const char *", "uint8_t *const", "const uint8_t *const", "unsigned char *", "const unsigned char *")
+    nfun = 0
+    ncmp = 0
+    seen_fn = set()
+    for u in UNITS:
+        fu = chk.facts(u, funcs=r"asmjit::.*")
+        for fo in fu["functions"]:
+            fn = cfg.Fn(fo)
+            keyf = (fn.name, fn.file, fn.line)
+            if keyf in seen_fn or not fn.file.endswith(".cpp"):
+                continue            # generic containers / sort helpers in headers compare element cursors of one array, which is address independent
+            seen_fn.add(keyf)
+            nfun += 1
+            for i, x in fn.ex.items():
+                if x["k"] != "binop" or x["op"] not in ("<", ">", "<=", ">="):
+                    continue
+                lt = (fn.e(x["lhs"]) or {}).get("ty", "")
+                rt = (fn.e(x["rhs"]) or {}).get("ty", "")
+                if "*" not in lt or "*" not in rt:
+                    continue
+                ncmp += 1
+                byte = lt.replace("  ", " ").strip() in BYTE and rt.replace("  ", " ").strip() in BYTE
+                chk.ob(R3, "%s|%s" % (fn.name.replace("asmjit::", ""), " ".join(fn.text(i).split())[:40]), byte, loc=fn.loc(i),
+                       detail="`%s` orders two %s by address: the result depends on arena placement" % (" ".join(fn.text(i).split())[:60], lt),
+                       key="ptrorder|%s" % fn.name.replace("asmjit::", ""))
+    chk.floor(R3 + ":functions-scanned", nfun, 300)
+    chk.extra["pointer_order"] = {"functions": nfun, "pointer_comparisons": ncmp}
+
     return chk.finish(
         level="other",
         explanation=("Reset-closure coverage over /repo's current source: for each class that owns arena-backed containers or "
